@@ -8,6 +8,7 @@ import (
 	"log"
 	"net/http"
 	"net/textproto"
+	"net/url"
 	"os"
 	"strings"
 	"testing"
@@ -233,6 +234,58 @@ func TestVerif_C01_inject(t *testing.T) {
 					}
 					if strings.ContainsAny(g.ruri, " \r\n\x00") {
 						ok, why = false, "raw control byte in target"
+					}
+					// a request that does reach the origin carries the value EXACTLY (a value that
+					// cannot be sent as it is must make the call fail, not be rewritten)
+					trim := func(v string) string { return strings.Trim(v, " \t") }
+					switch inj.where {
+					case "header-value", "header-value-client":
+						if got := g.header.Get("X-Data"); trim(got) != trim(p) {
+							ok, why = false, fmt.Sprintf("header value altered: %q", got)
+						}
+					case "header-value-noncanonical":
+						got := ""
+						for k, vs := range g.header {
+							if strings.EqualFold(k, "x-data") && len(vs) > 0 {
+								got = vs[0]
+							}
+						}
+						if trim(got) != trim(p) {
+							ok, why = false, fmt.Sprintf("header value altered: %q", got)
+						}
+					case "user-agent":
+						if got := g.header.Get("User-Agent"); trim(got) != trim("ua"+p) {
+							ok, why = false, fmt.Sprintf("user-agent altered: %q", got)
+						}
+					case "content-type":
+						if got := g.header.Get("Content-Type"); trim(got) != trim("text/plain"+p) {
+							ok, why = false, fmt.Sprintf("content-type altered: %q", got)
+						}
+					case "bearer":
+						if got := g.header.Get("Authorization"); trim(got) != trim("Bearer tok"+p) {
+							ok, why = false, fmt.Sprintf("authorization altered: %q", got)
+						}
+					case "path-param", "path-param-client":
+						segs := strings.Split(pathOnly, "/")
+						if len(segs) == 4 {
+							if un, e := url.PathUnescape(segs[2]); e != nil || un != p {
+								ok, why = false, fmt.Sprintf("path parameter altered: %q", segs[2])
+							}
+						}
+					case "query-value", "query-value-client":
+						if q := strings.IndexByte(g.ruri, '?'); q >= 0 {
+							if vals, e := url.ParseQuery(g.ruri[q+1:]); e != nil || vals.Get("q") != p {
+								ok, why = false, fmt.Sprintf("query value altered: %q", g.ruri[q+1:])
+							}
+						} else {
+							ok, why = false, "query missing"
+						}
+					case "query-key":
+						if q := strings.IndexByte(g.ruri, '?'); q >= 0 {
+							if vals, e := url.ParseQuery(g.ruri[q+1:]); e != nil || vals.Get("q"+p) != "v" {
+								ok, why = false, fmt.Sprintf("query key altered: %q", g.ruri[q+1:])
+							}
+						}
 					}
 				}
 				s.Observe(id, ok, "", len(seen) == 1, human, why)
